@@ -5,9 +5,9 @@ From EF Require Import Model.Base Gen.Tables Model.Code Model.Value Model.Env Mo
 Open Scope N_scope.
 
 (* a declaration in a fresh scope shadows, and closing the scope restores exactly what was there *)
-Theorem C06_declare_shadows : forall e n v,
-  env_get (env_declare (env_push e) n v) n = Some v /\
-  env_truncate (env_declare (env_push e) n v) (env_depth e) = e.
+Theorem C06_declare_shadows : forall e k n v,
+  env_get (env_declare (env_push e k) n v) n = Some v /\
+  env_truncate (env_declare (env_push e k) n v) (env_depth e) = e.
 Proof. exact EnvProofs.declare_shadows. Qed.
 
 (* declaring never touches another name, nor the globals *)
